@@ -82,3 +82,7 @@ Definition history_ok (ops : list bop) (ev : list bev) : bool :=
 (* the events of one handle, oldest first *)
 Definition events_of (h : nat) (ev : list bev) : list bev :=
   filter (fun e => Nat.eqb (ev_handle e) h) (rev ev).
+
+(* the outcome of one file with the completion order of its blocks forgotten *)
+Definition norm_phase (p : phase) : phase :=
+  match p with POpen bs => POpen (sort_nat bs) | PFinal bs => PFinal (sort_nat bs) | other => other end.
